@@ -174,6 +174,19 @@ def run(cx):
                         sj = o.of_operand(t_["discr"])
                         x_ = strip_identity(sj[1]) if sj[0] == "discr" else ("?",)
                         is_res = x_[0] == "field" and x_[2] == "0" and x_[1][0] == "variant" and x_[1][2] == "Ready"      # the awaited step's Result (0 = Ok, 1 = Err)
+                        if is_res:
+                            # ... of this step itself (not of a select! / join whose futures merely use the step's value)
+                            pc_ = strip_identity(x_[1][1])
+                            for _ in range(4):
+                                # an inlined async helper hands the step's result on as `Poll::Ready(<result>)`: look through it
+                                if pc_[0] == "agg" and str(pc_[2]).endswith("Poll::Ready") and len(pc_[3]) == 1:
+                                    in_ = strip_identity(pc_[3][0])
+                                    if in_[0] == "field" and in_[2] == "0" and in_[1][0] == "variant" and in_[1][2] == "Ready":
+                                        pc_ = strip_identity(in_[1][1])
+                                        continue
+                                break
+                            fut_ = strip_identity(pc_[2][0], extra=("Pin::new_unchecked", "IntoFuture::into_future", "pin::Pin::new")) if pc_[0] == "call" and pc_[2] else ("?",)
+                            is_res = fut_[0] == "call" and name_matches(fut_[1], f"{WIRE}::{st_}")
                         if sj[0] == "discr" and is_res and term_has_call(sj[1], f"{WIRE}::{st_}") and not term_has_call(sj[1], "Try::branch") \
                                 and not any(term_has_call(sj[1], f"{WIRE}::{x_}") for x_ in steps if x_ != st_):
                             labs = {str(l_) for l_, _ in t_["arms"]}
